@@ -1,36 +1,68 @@
 /* VERIF-UNIT
 {
  "name": "icount_ops",
- "props": ["C02", "C01"],
+ "props": [
+  "C02",
+  "C01"
+ ],
  "level": "U",
- "tier": "wip",
+ "tier": "quick",
  "harness": "h_ic_op",
- "replace": ["get_inode_count", "set_inode_count"],
- "defines": ["EXT2_CUSTOM_MEMORY_ROUTINES"],
+ "replace": [
+  "get_inode_count",
+  "set_inode_count"
+ ],
+ "defines": [
+  "EXT2_CUSTOM_MEMORY_ROUTINES"
+ ],
  "unwind": 10,
  "unwind_reason": "loop-free; 10 covers the loops of the contract-instrumentation library",
- "functions": ["lib/ext2fs/icount.c:ext2fs_icount_fetch", "lib/ext2fs/icount.c:ext2fs_icount_increment", "lib/ext2fs/icount.c:ext2fs_icount_decrement", "lib/ext2fs/icount.c:ext2fs_icount_store"],
- "assumes": ["in-memory mode without full map (fullmap == NULL, tdb == NULL): 'single' bitmap, optional 'multiple' bitmap, sorted list",
-	     "the two bitmaps are stubs over a ghost set: exact for the ghost inode K, arbitrary answers for every other inode",
-	     "get_inode_count / set_inode_count (same file) are replaced by contracts over the ghost 'list view of K' (count the sorted list holds for K, 0 if it has no entry): get reports it; set(ino, c) makes it c for ino == K and leaves it alone otherwise, and can fail (EXT2_ET_NO_MEMORY) only when ino has no entry, changing nothing.  These are the statements the units icount_list_* prove about the real get_icount_el / insert_icount_el with the list view spelled out on the real list",
-	     "counts are 32-bit in the list; u32 wrap-around of a count is not excluded (would need 2^32 directory entries for one inode)"],
+ "functions": [
+  "lib/ext2fs/icount.c:ext2fs_icount_fetch",
+  "lib/ext2fs/icount.c:ext2fs_icount_increment",
+  "lib/ext2fs/icount.c:ext2fs_icount_decrement",
+  "lib/ext2fs/icount.c:ext2fs_icount_store"
+ ],
+ "assumes": [
+  "in-memory mode without full map (fullmap == NULL, tdb == NULL): 'single' bitmap, optional 'multiple' bitmap, sorted list",
+  "the two bitmaps are stubs over a ghost set: exact for the ghost inode K, arbitrary answers for every other inode",
+  "get_inode_count / set_inode_count (same file) are replaced by contracts over the ghost 'list view of K' (count the sorted list holds for K, 0 if it has no entry): get reports it; set(ino, c) makes it c for ino == K and leaves it alone otherwise, and can fail (EXT2_ET_NO_MEMORY) only when ino has no entry, changing nothing.  These are the statements the units icount_list_* prove about the real get_icount_el / insert_icount_el with the list view spelled out on the real list",
+  "counts are 32-bit in the list; u32 wrap-around of a count is not excluded (would need 2^32 directory entries for one inode)"
+ ],
  "native": false
 }
 */
 /* VERIF-UNIT
 {
  "name": "icount_updown",
- "props": ["C02", "C01"],
+ "props": [
+  "C02",
+  "C01"
+ ],
  "level": "U",
- "tier": "wip",
+ "tier": "quick",
  "harness": "h_ic_updown",
- "replace": ["get_inode_count", "set_inode_count"],
- "defines": ["EXT2_CUSTOM_MEMORY_ROUTINES"],
+ "replace": [
+  "get_inode_count",
+  "set_inode_count"
+ ],
+ "defines": [
+  "EXT2_CUSTOM_MEMORY_ROUTINES"
+ ],
  "unwind": 10,
  "unwind_reason": "loop-free (seven calls written out); 10 covers the loops of the contract-instrumentation library",
- "cbmc_flags": ["--object-bits", "10"],
- "functions": ["lib/ext2fs/icount.c:ext2fs_icount_increment", "lib/ext2fs/icount.c:ext2fs_icount_decrement", "lib/ext2fs/icount.c:ext2fs_icount_fetch"],
- "assumes": ["as icount_ops; allocation never fails in this walk (set_inode_count's failure case is covered by icount_ops); other inodes are touched between the steps only through the stubs' arbitrary answers"],
+ "cbmc_flags": [
+  "--object-bits",
+  "10"
+ ],
+ "functions": [
+  "lib/ext2fs/icount.c:ext2fs_icount_increment",
+  "lib/ext2fs/icount.c:ext2fs_icount_decrement",
+  "lib/ext2fs/icount.c:ext2fs_icount_fetch"
+ ],
+ "assumes": [
+  "as icount_ops; allocation never fails in this walk (set_inode_count's failure case is covered by icount_ops); other inodes are touched between the steps only through the stubs' arbitrary answers"
+ ],
  "native": false
 }
 */
